@@ -12,7 +12,7 @@ def nontrivial(d, t, r):
 
 
 def run(tier, seed, rep, replay=None):
-    netprops.standard_run(ID, tier, seed, rep, replay, ALGOS, nontrivial, extra_cases=lambda tier, seed: families.xy_suite(tier, seed) + [(d, t) for d, t in families.conflict_suite(tier, seed) if t.get('defect') == 'xy-same-coordinate'], rule=
+    netprops.standard_run(ID, tier, seed, rep, replay, ALGOS, nontrivial, extra_cases=lambda tier, seed: families.xy_suite(tier, seed) + families.name_collision_suite(tier, seed) + [(d, t) for d, t in families.conflict_suite(tier, seed) if t.get('defect') == 'xy-same-coordinate'], rule=
                           "families star/mesh/mesh_plus/tree/custom x algorithms " + str(ALGOS) + " x axi/narrow-wide, "
                           "exhaustive declaration-order permutations for small stars, seeded random otherwise; "
                           "plus XY arrays without auto-connection in which two endpoints would get one coordinate (must be rejected); "
